@@ -41,7 +41,9 @@ func (v *Vue) evaluate(ctx VueContext, nodes []*html.Node, depth int) ([]*html.N
 			// Check for v-once early - skip if already rendered
 			// A looped element is instantiated per item below; the once-check
 			// then applies to each instance (the first one is kept).
-			if helpers.HasAttr(node, "v-once") && !helpers.HasAttr(node, "v-for") {
+			// A branch of a v-if / v-for chain is checked when it is selected
+			// (evaluateNodeAsElement), not when the chain is passed over.
+			if helpers.HasAttr(node, "v-once") && !helpers.HasAttr(node, "v-for") && !isChainBranch(node) {
 				vSeenID := helpers.GetAttr(node, "v-once-id")
 				if ctx.seen[vSeenID] {
 					// This v-once element has already been rendered, skip it
